@@ -118,7 +118,8 @@ FreshMS == [sc |-> sc, sf |-> sf, c1 |-> c1, c2 |-> c2, spends |-> {}, created |
 \* fnd: "" | new Foundation address        tag: template / defect name
 NoRen == [fr |-> 0, fh |-> 0, rr |-> 0, hr |-> 0, nc |-> NULL, auth |-> "ok"]
 EmptyTx(ver) == [ver |-> ver, sci |-> <<>>, sco |-> <<>>, sfi |-> <<>>, sfo |-> <<>>, fee |-> 0,
-                 fc |-> <<>>, rev |-> <<>>, res |-> <<>>, fnd |-> "", fauth |-> "ok", tag |-> ""]
+                 fc |-> <<>>, rev |-> <<>>, res |-> <<>>, fnd |-> "", fauth |-> "ok", tag |-> "",
+                 slack |-> -1]   \* distance (in blocks) from the height at which the transaction's timing rule flips; -1: none
 
 AuthOK(a) == a = "ok"
 
@@ -342,7 +343,7 @@ Out(v, a) == [val |-> v, addr |-> a]
 Vers == {v \in {1, 2} : (v = 1 /\ child < RequireH) \/ (v = 2 /\ child >= AllowH)}
 
 PayTx(m, v, id, a, f, x) ==
-  [EmptyTx(v) EXCEPT !.sci = <<In(id)>>, !.fee = f, !.tag = "pay",
+  [EmptyTx(v) EXCEPT !.sci = <<In(id)>>, !.fee = f, !.tag = "pay", !.slack = child - m.sc[id].mat,
      !.sco = IF m.sc[id].val - a - f > 0 THEN <<Out(a, x), Out(m.sc[id].val - a - f, m.sc[id].addr)>> ELSE <<Out(a, x)>>]
 T_Pay(m) == IF "pay" \notin Templates THEN {} ELSE
   {PayTx(m, q[1], q[2], q[3], q[4], q[5]) :
@@ -360,7 +361,7 @@ C1(P, a, ws, we, size) == LET vs == P - Tax1(P) rs == vs \div 2 hs == vs - rs bu
   [pay |-> P, vo |-> <<Out(rs, a), Out(hs, "B")>>, mo |-> <<Out(rs, a), Out(hs - burn, "B"), Out(burn, "V")>>,
    ws |-> ws, we |-> we, rn |-> 0, size |-> size, owner |-> a]
 Form1Tx(m, id, P, dw, de, size) ==
-  [EmptyTx(1) EXCEPT !.sci = <<In(id)>>, !.fc = <<C1(P, m.sc[id].addr, child + dw, child + dw + de, size)>>, !.tag = "form1",
+  [EmptyTx(1) EXCEPT !.sci = <<In(id)>>, !.fc = <<C1(P, m.sc[id].addr, child + dw, child + dw + de, size)>>, !.tag = "form1", !.slack = dw,
      !.sco = IF m.sc[id].val - P > 0 THEN <<Out(m.sc[id].val - P, m.sc[id].addr)>> ELSE <<>>]
 T_Form1(m) == IF "form1" \notin Templates \/ 1 \notin Vers THEN {} ELSE
   {Form1Tx(m, q[1], q[2], q[3], q[4], q[5]) :
@@ -370,17 +371,17 @@ Rev1(c, d, dw) == [c EXCEPT !.rn = @ + 1, !.ws = @ + dw, !.we = @ + dw,
                      !.vo = <<Out(c.vo[1].val - d, c.vo[1].addr), Out(c.vo[2].val + d, c.vo[2].addr)>>,
                      !.mo = <<Out(c.mo[1].val - d, c.mo[1].addr), Out(c.mo[2].val + d, c.mo[2].addr), c.mo[3]>>]
 T_Rev1(m) == IF "rev1" \notin Templates \/ 1 \notin Vers THEN {} ELSE
-  {[EmptyTx(1) EXCEPT !.rev = <<[cid |-> q[1], c |-> Rev1(m.c1[q[1]], q[2], q[3]), auth |-> "ok"]>>, !.tag = "rev1"] :
+  {[EmptyTx(1) EXCEPT !.rev = <<[cid |-> q[1], c |-> Rev1(m.c1[q[1]], q[2], q[3]), auth |-> "ok"]>>, !.tag = "rev1", !.slack = m.c1[q[1]].ws - child] :
      q \in {y \in Live1(m) \X RevShifts \X {0, 2} : y[2] <= m.c1[y[1]].vo[1].val}}
 T_Prove1(m) == IF "prove1" \notin Templates \/ 1 \notin Vers THEN {} ELSE
-  {[EmptyTx(1) EXCEPT !.res = <<[cid |-> cid, kind |-> "proof", pf |-> "ok", ren |-> NoRen]>>, !.tag = "prove1"] :
+  {[EmptyTx(1) EXCEPT !.res = <<[cid |-> cid, kind |-> "proof", pf |-> "ok", ren |-> NoRen]>>, !.tag = "prove1", !.slack = child - m.c1[cid].ws] :
      cid \in {x \in Live1(m) : m.c1[x].ws <= child}}
 \* v2 formation
 C2(r, h, a, ph, eh) == [r |-> r, h |-> h, ra |-> a, ha |-> "B", mh |-> h - (h \div 4), coll |-> h \div 2, ph |-> ph, eh |-> eh,
                         rn |-> 0, cap |-> 128, size |-> 64, rk |-> "R", hk |-> "H", auth |-> "ok"]
 Cost2(rh) == rh[1] + rh[2] + Tax2(rh[1], rh[2])
 Form2Tx(m, id, rh, dp, de) ==
-  [EmptyTx(2) EXCEPT !.sci = <<In(id)>>, !.fc = <<C2(rh[1], rh[2], m.sc[id].addr, child + dp, child + dp + de)>>, !.tag = "form2",
+  [EmptyTx(2) EXCEPT !.sci = <<In(id)>>, !.fc = <<C2(rh[1], rh[2], m.sc[id].addr, child + dp, child + dp + de)>>, !.tag = "form2", !.slack = dp,
      !.sco = IF m.sc[id].val - Cost2(rh) > 0 THEN <<Out(m.sc[id].val - Cost2(rh), m.sc[id].addr)>> ELSE <<>>]
 T_Form2(m) == IF "form2" \notin Templates \/ 2 \notin Vers THEN {} ELSE
   {Form2Tx(m, q[1], q[2], q[3], q[4]) :
@@ -388,10 +389,11 @@ T_Form2(m) == IF "form2" \notin Templates \/ 2 \notin Vers THEN {} ELSE
 Live2(m) == {cid \in DOMAIN m.c2 : cid \notin m.spends /\ cid \in DOMAIN c2}
 Rev2(c, d, dp) == [c EXCEPT !.rn = @ + 1, !.r = @ - d, !.h = @ + d, !.mh = IF @ > d THEN @ - d ELSE 0, !.ph = @ + dp, !.eh = @ + dp]
 T_Rev2(m) == IF "rev2" \notin Templates \/ 2 \notin Vers THEN {} ELSE
-  {[EmptyTx(2) EXCEPT !.rev = <<[cid |-> q[1], c |-> Rev2(m.c2[q[1]], q[2], q[3]), auth |-> "ok"]>>, !.tag = "rev2"] :
+  {[EmptyTx(2) EXCEPT !.rev = <<[cid |-> q[1], c |-> Rev2(m.c2[q[1]], q[2], q[3]), auth |-> "ok"]>>, !.tag = "rev2", !.slack = m.c2[q[1]].ph - child] :
      q \in {y \in Live2(m) \X RevShifts \X {0, 1} : y[2] <= m.c2[y[1]].r}}
 T_Res2(m) == IF "res2" \notin Templates \/ 2 \notin Vers THEN {} ELSE
-  {[EmptyTx(2) EXCEPT !.res = <<[cid |-> q[1], kind |-> q[2], pf |-> "ok", ren |-> NoRen]>>, !.tag = q[2]] :
+  {[EmptyTx(2) EXCEPT !.res = <<[cid |-> q[1], kind |-> q[2], pf |-> "ok", ren |-> NoRen]>>, !.tag = q[2],
+                       !.slack = IF q[2] = "proof" THEN child - (c2[q[1]].ph + 1) ELSE child - (c2[q[1]].eh + 1)] :
      q \in Live2(m) \X {"proof", "expire"}}
 \* renewal: roll a quarter of each side over, fund the rest of the new contract from one input
 RenewTx(m, cid, id, nr) ==
@@ -449,15 +451,33 @@ SpendAgain(m, id, e) ==    \* e = [k, val, addr]
   \cup {[EmptyTx(v) EXCEPT !.sfi = <<[id |-> id, claim |-> e.addr, auth |-> "ok"]>>, !.sfo = <<Out(e.val, e.addr)>>, !.tag = "reuse-gone"] : v \in (IF e.k = "sf" THEN Vers ELSE {})}
   \cup (IF e.k = "c2" /\ 2 \in Vers THEN {[EmptyTx(2) EXCEPT !.res = <<[cid |-> id, kind |-> "expire", pf |-> "ok", ren |-> NoRen]>>, !.tag = "reuse-gone"]} ELSE {})
   \cup (IF e.k = "c1" /\ 1 \in Vers THEN {[EmptyTx(1) EXCEPT !.res = <<[cid |-> id, kind |-> "proof", pf |-> "ok", ren |-> NoRen]>>, !.tag = "reuse-gone"]} ELSE {})
+\* the parents of an earlier transaction of the block used again: as a variant of that transaction (same version), or
+\* as a plain transfer of the same inputs in the other transaction version
+ReuseAs(m, t, v) ==
+  IF v = t.ver \/ (t.sci = <<>> /\ t.sfi = <<>>) THEN Vary(t)
+  ELSE [EmptyTx(v) EXCEPT !.sci = t.sci, !.sfi = t.sfi, !.tag = t.tag,
+          !.sco = IF t.sci = <<>> THEN <<>> ELSE <<Out(SumF([i \in DOMAIN t.sci |-> m.sc[t.sci[i].id].val], DOMAIN t.sci), "A")>>,
+          !.sfo = IF t.sfi = <<>> THEN <<>> ELSE <<Out(SumF([i \in DOMAIN t.sfi |-> m.sf[t.sfi[i].id].val], DOMAIN t.sfi), "A")>>]
 BadCand(m) ==
      UNION {Mut(m, t) : t \in {u \in Cand(m) : ValidTx(m, u)}}
-\cup (IF "reuse" \in Defects THEN {Tag(Vary([m.txs[i] EXCEPT !.ver = v]), "reuse") : i \in DOMAIN m.txs, v \in {w \in Vers : w = 2 \/ m.nv2 = 0}} ELSE {})
+\cup (IF "reuse" \in Defects THEN {Tag(ReuseAs(m, m.txs[i], v), "reuse") : i \in DOMAIN m.txs, v \in {w \in Vers : w = 2 \/ m.nv2 = 0}} ELSE {})
 \cup (IF "reuse" \in Defects THEN UNION {SpendAgain(m, id, gone[id]) : id \in DOMAIN gone} ELSE {})
 \cup (IF "era" \in Defects THEN {Tag([t EXCEPT !.ver = 3 - t.ver], "era") :
           t \in {u \in Cand(m) : ValidTx(m, u) /\ u.fc = <<>> /\ u.rev = <<>> /\ u.res = <<>> /\ (3 - u.ver) \notin Vers /\ (u.ver = 1 \/ m.nv2 = 0)}} ELSE {})
 \cup (IF "immature" \in Defects THEN
         {[EmptyTx(q[1]) EXCEPT !.sci = <<In(q[2])>>, !.sco = <<Out(m.sc[q[2]].val, m.sc[q[2]].addr)>>, !.tag = "immature"] :
-            q \in Vers \X {y \in DOMAIN m.sc : y \notin m.spends /\ m.sc[y].mat > child /\ m.sc[y].val > 0 /\ m.sc[y].addr \in Owners}} ELSE {})
+            q \in Vers \X {y \in DOMAIN sc : y \notin m.spends /\ m.sc[y].mat > child /\ m.sc[y].val > 0 /\ m.sc[y].addr \in Owners}} ELSE {})
+\* every revision / proof / expiration of every live contract, whatever the height: BadTxn keeps the invalid ones
+\cup (IF "timing" \in Defects THEN
+        {Tag(t, "timing") : t \in
+           (IF 2 \in Vers THEN {[EmptyTx(2) EXCEPT !.rev = <<[cid |-> q[1], c |-> Rev2(m.c2[q[1]], q[2], 0), auth |-> "ok"]>>, !.tag = "rev2"] :
+                                  q \in {y \in Live2(m) \X RevShifts : y[2] <= m.c2[y[1]].r}}
+                               \cup {[EmptyTx(2) EXCEPT !.res = <<[cid |-> q[1], kind |-> q[2], pf |-> "ok", ren |-> NoRen]>>, !.tag = q[2]] :
+                                  q \in Live2(m) \X {"proof", "expire"}} ELSE {})
+           \cup (IF 1 \in Vers THEN {[EmptyTx(1) EXCEPT !.rev = <<[cid |-> q[1], c |-> Rev1(m.c1[q[1]], q[2], 0), auth |-> "ok"]>>, !.tag = "rev1"] :
+                                  q \in {y \in Live1(m) \X RevShifts : y[2] <= m.c1[y[1]].vo[1].val}}
+                               \cup {[EmptyTx(1) EXCEPT !.res = <<[cid |-> cid, kind |-> "proof", pf |-> "ok", ren |-> NoRen]>>, !.tag = "prove1"] :
+                                  cid \in Live1(m)} ELSE {})} ELSE {})
 \cup (IF "early" \in Defects /\ 2 \in Vers THEN
         {[EmptyTx(2) EXCEPT !.res = <<[cid |-> q[1], kind |-> q[2], pf |-> "ok", ren |-> NoRen]>>, !.tag = q[2] \o "!early"] :
             q \in Live2(m) \X {"proof", "expire"}} ELSE {})
